@@ -10,7 +10,10 @@ import (
 	"fmt"
 	"io"
 	"os"
+	"runtime"
 	"strings"
+	"sync"
+	"time"
 
 	"go.uber.org/thriftrw/protocol/binary"
 	"go.uber.org/thriftrw/wire"
@@ -122,6 +125,54 @@ func randomSizes(r *rng.R, total int) []int {
 		left -= n
 	}
 	return s
+}
+
+// watchdog: an implementation call that does not return (a decoder that loops) or that
+// grows the heap without bound cannot be interrupted from inside the process, so a monitor
+// goroutine records the offending input as a property failure, writes the report and exits.
+var (
+	wdMu      sync.Mutex
+	wdInput   string
+	wdStarted time.Time
+	wdRep     *report.Report
+)
+
+func wdEnter(input string) {
+	wdMu.Lock()
+	wdInput, wdStarted = input, time.Now()
+	wdMu.Unlock()
+}
+
+func wdLeave() {
+	wdMu.Lock()
+	wdInput = ""
+	wdMu.Unlock()
+}
+
+func startWatchdog(rep *report.Report) {
+	wdRep = rep
+	go func() {
+		for {
+			time.Sleep(200 * time.Millisecond)
+			wdMu.Lock()
+			in, st := wdInput, wdStarted
+			wdMu.Unlock()
+			if in == "" {
+				continue
+			}
+			var ms runtime.MemStats
+			runtime.ReadMemStats(&ms)
+			el := time.Since(st)
+			if el > 20*time.Second || ms.HeapAlloc > 6<<30 {
+				why := fmt.Sprintf("implementation call did not finish: %.1fs elapsed, heap %d MiB (hang / unbounded work or allocation)", el.Seconds(), ms.HeapAlloc>>20)
+				rep.Disagree(report.Disagreement{Kind: *prop + " decoder does not terminate / unbounded resources", Input: in, Impl: "no result", Oracle: why})
+				rep.Evaluations++
+				rep.Rule = "aborted by the watchdog on a non-terminating implementation call"
+				rep.Write(*out)
+				os.Exit(0)
+			}
+		}
+	}()
 }
 
 // safely runs f, converting a panic into an error string.
@@ -416,6 +467,8 @@ func c03Input(c *checker, r *rng.R, t byte, b []byte, how string) {
 	key := fmt.Sprintf("%d %s", t, hexb)
 	sizes := randomSizes(r, len(b))
 
+	wdEnter("L " + key)
+	defer wdLeave()
 	l, lv, loff := implLazy(t, b)
 	ev := implEvaluate(t, b)
 	s, sv, soff := implStream(t, b, sizes)
@@ -533,6 +586,7 @@ func main() {
 	flag.Parse()
 	rep := report.New(*prop)
 	c := &checker{rep: rep}
+	startWatchdog(rep)
 	r := rng.FromEnv(0x1000)
 	if *replay != "" {
 		runReplay(c, *replay)
